@@ -381,6 +381,8 @@ def extra_phase(tier, master, facts, src, log):
                 continue  # row-level and table-level kinds on the first world only; config / storage / command-line kinds and oddities on all four
             # alternately into a separate output directory and into the directory that holds the input files themselves
             o = dict(c12case["opts"], outdir="out" if (k + j) % 2 == 0 else "INPUTDIR")
+            if f.get("kind") == "json_format" or (k + j) % 4 == 1:
+                o["file_names"] = ["legacy.json", "w0.ods"]  # a config in the old format usually still has its old name
             sweep.append({"property": PROP, "seed": c12case["seed"], "index": 2 * 10**9 + k * 1000 + j, "mode": "input_fault", "fault": f, "world": c12case["world"],
                           "opts": o, "host": dict(gen.BASE_HOST, tty=(f["class"] == "cmdline" or (k + j) % 3 == 0)), "prestate": [], "swarm": c12case["swarm"],
                           "strace": (k + j) % 5 == 0})  # usage errors on an interactive terminal: pagers and prompts live behind isatty()
